@@ -539,6 +539,22 @@ def c07_closed(m, o):
         mm.run(solver=solver, jit=False, **kw)
         return mm.times, np.asarray(mm.outputs)[:, 0]
 
+    # a smooth arrival wave much narrower than the output step (default solver, coarse output grids): the outputs are the
+    # solution at the output times however far apart they are
+    from summer2.parameters import Function, Time
+    from jax import numpy as jnp
+    for (h_, centre, width) in o.get("pulses2", [(30.0, 58.0, 1.0), (60.0, 47.0, 2.0), (1.0, 58.0, 1.0)]):
+        mm = CompartmentalModel([0.0, 120.0], ["S", "R"], ["S"], timestep=h_)
+        mm.set_initial_population({"S": 10.0})
+        mm.add_importation_flow("arrivals", Function(lambda t, c=centre, w=width: 100.0 * jnp.exp(-((t - c) ** 2) / (2.0 * w * w)), [Time]), "R",
+                                split_imports=False)
+        mm.run(jit=False)
+        got = float(np.asarray(mm.outputs)[-1, 1])
+        exact = 100.0 * width * math.sqrt(2 * math.pi) * 0.5 * (math.erf((120.0 - centre) / (width * math.sqrt(2))) - math.erf((0.0 - centre) / (width * math.sqrt(2))))
+        checks += 1
+        if abs(got - exact) > 20 * 1.4e-4 * (1 + abs(exact)):
+            viol.append("default solver, arrivals 100*exp(-(t-%g)^2/(2*%g^2)) into R, output step %g: R(120) = %.6f, exact %.6f"
+                        % (centre, width, h_, got, exact))
     for (t0, t1, h, lam) in o["cases"]:
         n = int(round((t1 - t0) / h))
         z = -h * lam
@@ -1479,6 +1495,30 @@ def c18_disparity(m, o):
     return {"checks": checks, "violations": viol[:6]}
 
 
+def _rotated_constants(prog):
+    """the same definition with its literal numbers at other sites: initial values rotated among the compartments, split
+    and infectiousness values rotated among the strata; None when nothing changes"""
+    prog2 = json.loads(json.dumps(prog))
+    changed = [False]
+
+    def rot(d):
+        ks = list(d)
+        vs = [d[k] for k in ks]
+        if len(ks) >= 2 and len({json.dumps(v) for v in vs}) > 1:
+            changed[0] = True
+            return dict(zip(ks, vs[1:] + vs[:1]))
+        return d
+    for op in prog2["ops"]:
+        if op["op"] == "pop" and all(isinstance(v, str) for v in op["dist"].values()):
+            op["dist"] = rot(op["dist"])
+        if op["op"] == "strat":
+            if op.get("split") and all(isinstance(v, str) for v in op["split"].values()):
+                op["split"] = rot(op["split"])
+            if op.get("iadj"):
+                op["iadj"] = {c_: rot(a_) for c_, a_ in op["iadj"].items()}
+    return prog2 if changed[0] else None
+
+
 def c06(m, o):
     """initial population recomputed from the definition: distribution x splits, then rebalances"""
     from fractions import Fraction
@@ -1551,6 +1591,29 @@ def c06(m, o):
         checks += 1
         if row0.shape != exp.shape or np.abs(row0 - exp).max() > 1e-9 * scale:
             viol.append("%s: row 0 of the outputs %s differs from the initial population %s" % (solver, np.round(row0, 8)[:6], np.round(exp, 8)[:6]))
+    prog_r = _rotated_constants(prog) if arr is None else None
+    if prog_r is not None and not viol:
+        # a different model that holds the same literal numbers at other sites is built and evaluated in between: this
+        # model's initial population does not move
+        import impl
+        other, e_o, _ = impl.build(dict(prog_r, obs=[]))
+        if other is not None and e_o is None:
+            try:
+                other.get_initial_population(p)
+            except BaseException as e:  # noqa
+                if type(e).__name__ == "ObservationTimeLimit":
+                    raise
+            checks += 1
+            try:
+                again = np.asarray(m.get_initial_population(p).values, dtype=float)
+                if again.shape != exp.shape or np.abs(again - exp).max() > 1e-9 * scale:
+                    viol.append("after a different model using the same numbers at other sites was built and evaluated, the initial "
+                                "population of this model is %s instead of %s" % (np.round(again, 8)[:8], np.round(exp, 8)[:8]))
+            except BaseException as e:  # noqa
+                if type(e).__name__ == "ObservationTimeLimit":
+                    raise
+                viol.append("after a different model using the same numbers at other sites was built and evaluated, "
+                            "get_initial_population of this model raises %s" % repr(e)[:100])
     if o.get("params2") and not viol:
         # the same object run again with other parameter values: row 0 is the initial population of THOSE values
         # (the reference is a freshly built model's get_initial_population, itself compared with the definition above)
@@ -2246,9 +2309,58 @@ def c11_shared_keys(m, o):
     return {"checks": checks, "violations": viol}
 
 
+def c11_caller_objects(m, o):
+    """the caller keeps one parameter dictionary (nested, with an array-valued entry) and changes it in place between two
+    runs of one runner: each run is the run of a fresh object with the values the dictionary holds at that time"""
+    from summer2 import CompartmentalModel
+    from summer2.parameters import Parameter, Function
+    from jax import numpy as jnp
+    viol, checks = [], 0
+
+    def build():
+        mm = CompartmentalModel([0, 6], ["S", "I", "R"], ["I"], timestep=1.0)
+        mm.set_initial_population({"S": 990.0, "I": 10.0})
+        mm.add_infection_frequency_flow("inf", Parameter("contact.rate"), "S", "I")
+        mm.add_transition_flow("rec", Function(lambda r: r[0] + r[1], [Parameter("rates")]), "I", "R")
+        return mm
+
+    def fresh(contact, rates):
+        f = build()
+        f.run({"contact": {"rate": contact}, "rates": jnp.array(rates)}, solver="euler", jit=False)
+        return np.asarray(f.outputs).copy()
+    for via_model in (True, False):
+        a = build()
+        p = {"contact": {"rate": 1.0 / 3}, "rates": np.array([0.1, 0.05])}
+        run = (lambda q: a.run(q, solver="euler", jit=False)) if via_model else None
+        if not via_model:
+            r_ = a.get_runner(dict(p), solver="euler", jit=False)
+            run = r_.run
+        try:
+            run(p)
+            first = np.asarray(a.outputs).copy()
+            p["contact"]["rate"] = 0.6          # nested entry changed in place
+            run(p)
+            second = np.asarray(a.outputs).copy()
+            p["rates"][0] = 0.25                # array entry changed in place
+            run(p)
+            third = np.asarray(a.outputs).copy()
+        except Exception as e:  # noqa
+            viol.append("caller-objects: runs with a nested / array-valued parameter dictionary raise %s" % repr(e)[:100])
+            continue
+        for got, want, what in ((first, fresh(1.0 / 3, [0.1, 0.05]), "the first run"),
+                                (second, fresh(0.6, [0.1, 0.05]), "the run after contact.rate was changed in place to 0.6"),
+                                (third, fresh(0.6, [0.25, 0.05]), "the run after rates[0] was changed in place to 0.25")):
+            checks += 1
+            if got.shape != want.shape or not np.allclose(got, want, rtol=1e-12, atol=0):
+                viol.append("caller-objects (%s): %s gives S(end) = %.6f, a fresh object with those values %.6f"
+                            % ("model.run" if via_model else "runner.run", what, float(got[-1][0]), float(want[-1][0])))
+                break
+    return {"checks": checks, "violations": viol}
+
+
 MODEL_ORACLES = {"c02_traj": c02_traj, "c13": c13, "c12": c12, "c12_dates": c12_dates,
                  "c07": c07, "c07_closed": c07_closed, "c16": c16, "c14": c14, "c08": c08, "c09": c09, "c10": c10, "c04": c04, "c18_traj": c18_traj, "c06": c06, "c05": c05, "c03": c03, "c15": c15, "c11": c11, "c10_axis": c10_axis, "c12_grid": c12_grid,
-                 "c18_disparity": c18_disparity, "c18_timefuncs": c18_timefuncs, "c11_shared_keys": c11_shared_keys}
+                 "c18_disparity": c18_disparity, "c18_timefuncs": c18_timefuncs, "c11_shared_keys": c11_shared_keys, "c11_caller_objects": c11_caller_objects}
 
 
 def run_oracle(m, o):
